@@ -51,7 +51,15 @@ var c11Starts = []time.Time{
 	time.Date(1969, 12, 31, 0, 0, 0, 0, time.UTC),            // 006: pre-1970
 	time.Date(2020, 1, 1, 0, 0, 0, 0, time.UTC),              // 007: tie with 002
 	time.Date(2023, 12, 31, 0, 0, 1, 0, time.UTC),            // 008: 1 s inside the 1-day window at T0
+	time.Date(2019, 12, 31, 0, 0, 0, 0, time.UTC),            // 009: the same DAY as 003 but earlier: denom order (…-003 < …-009) is not date order
 }
+
+// Batches of other projects / classes whose denoms sort AFTER every C01-001 denom although their start
+// dates lie in the middle of the range (a listing by denom would release them in the wrong order).
+const (
+	C11OtherProject = "C01-002-20210101-20991231-001"
+	C11OtherClass   = "C02-001-20180601-20991231-002"
+)
 
 // C11Denoms returns the batch denoms of the criteria scenario (class C01).
 func C11Denoms() []string {
@@ -70,6 +78,7 @@ const (
 	KD = "eco.uC.KDAY"  // window 1 day, auto-retire ENABLED
 	KY = "eco.uC.KYEAR" // 1 year in the past
 	KE = "eco.uC.KEPO"  // min start date = the Unix epoch
+	K2 = "eco.uC.KTWO"  // no criteria, classes C01 and C02, auto-retire disabled
 )
 
 // Criteria scenario (C11).
@@ -87,6 +96,7 @@ func Criteria() Spec {
 			Msg("seed:class BIO01", &basetypes.MsgCreateClass{Admin: a, Issuers: []string{a}, Metadata: "m", CreditTypeAbbrev: "BIO", Fee: pcoin("uregen", 20)}),
 			Msg("seed:project C01-001", &basetypes.MsgCreateProject{Admin: a, ClassId: "C01", Metadata: "m", Jurisdiction: "US-WA"}),
 			Msg("seed:project C02-001", &basetypes.MsgCreateProject{Admin: a2, ClassId: "C02", Metadata: "m", Jurisdiction: "US-WA"}),
+			Msg("seed:project C01-002", &basetypes.MsgCreateProject{Admin: a, ClassId: "C01", Metadata: "m", Jurisdiction: "US-OR"}),
 			Msg("seed:project BIO01-001", &basetypes.MsgCreateProject{Admin: a, ClassId: "BIO01", Metadata: "m", Jurisdiction: "US-WA"}),
 		)
 		for _, s := range c11Starts {
@@ -95,6 +105,9 @@ func Criteria() Spec {
 		acts = append(acts,
 			CreateBatch(A2, "C02-001", date(2023, 6, 1), end, true, nil, Iss(B, "10", "0")),  // class not allowed
 			CreateBatch(A, "BIO01-001", date(2023, 6, 1), end, true, nil, Iss(B, "10", "0")), // other credit type (basket creation refuses to list such a class)
+			CreateBatch(A, "C01-002", date(2021, 1, 1), end, true, nil, Iss(B, "10", "0")),
+			CreateBatch(A2, "C02-001", date(2018, 6, 1), end, true, nil, Iss(B, "10", "0")),
+			mkBasket("KTWO", true, nil, "C01", "C02"),
 			mkBasket("KNONE", true, nil, "C01"),
 			mkBasket("KMIN", false, &baskettypes.DateCriteria{MinStartDate: gts(date(2020, 1, 1))}, "C01"),
 			mkBasket("KWIN", true, &baskettypes.DateCriteria{StartDateWindow: gdur(365 * 24 * time.Hour)}, "C01"),
@@ -119,6 +132,14 @@ func Criteria() Spec {
 			fix(Take(B, k, "1000000", true)), fix(Take(B, k, "1500000", false)),
 			TakeAll(B, k, true), TakeAll(B, k, false))
 	}
+	// the two-class basket: batches of two classes and two projects, whose denom order is not their date order
+	for _, d := range []string{den[0], den[2], den[8], C11OtherProject, C11OtherClass, c02} {
+		evs = append(evs, fix(Put(B, K2, BC(d, "1"))))
+	}
+	evs = append(evs,
+		fix(Put(B, K2, BC(den[0], "1"), BC(C11OtherProject, "1"), BC(C11OtherClass, "1"), BC(den[8], "1"), BC(den[2], "1"))),
+		fix(Take(B, K2, "1000000", false)), fix(Take(B, K2, "2500000", false)), TakeAll(B, K2, false),
+		fix(Put(B, KM, BC(C11OtherProject, "1"))), fix(Put(B, K0, BC(C11OtherProject, "1"))))
 	evs = append(evs,
 		fix(Put(B, K0, BC(den[0], "0.5"), BC(den[5], "1.5"), BC(den[0], Eps))), // several credits, same batch twice
 		fix(Put(C, K0, BC(den[1], "2"), BC(den[6], "2"))),
@@ -132,6 +153,11 @@ func Criteria() Spec {
 		fix(Put(B, K0, BC(den[2], "1e-6"))),                   // scientific notation, smallest unit
 		fix(BankSend("BankSend(B->D,1500000 KNONE)", B, D, coin(K0, 1500000))),
 		TakeAll(D, K0, false),
+		// a basket created during the exploration (its criterion is checked against the request), then used
+		fix(Msg("basket.Create(A,KNEW,years=1)", &baskettypes.MsgCreate{Curator: A.String(), Name: "KNEW", DisableAutoRetire: true, CreditTypeAbbrev: "C",
+			AllowedClasses: []string{"C01"}, DateCriteria: &baskettypes.DateCriteria{YearsInThePast: 1}, Fee: sdk.NewCoins(coin("uregen", 10))})),
+		fix(Put(B, "eco.uC.KNEW", BC(den[0], "1"))),
+		fix(Put(B, "eco.uC.KNEW", BC(den[3], "1"))),
 		fix(dateCrit("min=2019-12-31T23:59:59.999999999", KM, G, &baskettypes.DateCriteria{MinStartDate: gts(c11Starts[2])})),
 		fix(dateCrit("years=1", K0, G, &baskettypes.DateCriteria{YearsInThePast: 1})),
 		fix(dateCrit("none", KY, G, nil)),
